@@ -31,6 +31,21 @@ def if_chain(fn):
             return out, cur.orelse
 
 
+def _split_target_conjunctions(fn):
+    """`elif cls is str and <guard>: A  else: R`  is read as  `elif cls is str: (if <guard>: A else: R)  else: R` (the same
+    function): the table of targets is keyed by the test of `cls` alone."""
+    import copy
+    for n in ast.walk(fn):
+        if isinstance(n, ast.If) and isinstance(n.test, ast.BoolOp) and isinstance(n.test.op, ast.And) and n.orelse \
+                and norm(n.test.values[0]).startswith(("cls is ", "cls in ")) and not (len(n.orelse) == 1 and isinstance(n.orelse[0], ast.If)):
+            rest = n.test.values[1:]
+            guard = rest[0] if len(rest) == 1 else ast.copy_location(ast.BoolOp(op=ast.And(), values=rest), n.test)
+            inner = ast.copy_location(ast.If(test=guard, body=n.body, orelse=copy.deepcopy(n.orelse)), n)
+            n.test = n.test.values[0]
+            n.body = [inner]
+            ast.fix_missing_locations(n)
+
+
 def check(ctx):
     model = ctx.model
     ctx.explanations.append(
@@ -43,6 +58,7 @@ def check(ctx):
     )
     co = model.func(f"{COERCION}.coerce")
     ctx.require(co.params[:2] == ["cls", "data"], "coerce signature changed")
+    _split_target_conjunctions(co.node)
     chain, orelse = if_chain(co.node)
     tests = [norm(t) for t, _ in chain]
 
